@@ -857,6 +857,11 @@ def method_render(self):
                     ot = self.vtype(m2.group(2))
                     if tt and ot and re.search(r'\b(double|float)D_', ot) and tt in F2I_TYPES:
                         lines.append('  __CPROVER_assert(G2C_F2I_OK_%s(%s), "g2c-safety: float-to-integer conversion within the range of %s");' % (F2I_TYPES[tt], self.expr(m2.group(2)), tt))
+                    elif tt and ot and tt in F2I_TYPES and '*' not in ot and '&' not in ot and not re.search(r'\b(struct|union|enum)\b', ot) and \
+                            not re.search(r'\b(int|long|short|char|bool|_Bool|unsigned|signed)D_', ot) and UIDTOK.search(ot):
+                        # the operand's type is a typedef (bloc::Numeric is double): decide at C level whether it is floating
+                        x_ = self.expr(m2.group(2))
+                        lines.append('  __CPROVER_assert(_Generic((%s), double: G2C_F2I_OK_%s(%s), float: G2C_F2I_OK_%s(%s), default: 1), "g2c-safety: float-to-integer conversion within the range of %s");' % (x_, F2I_TYPES[tt], x_, F2I_TYPES[tt], x_, tt))
                 m2 = re.match(r'^__ABS (\S+)$', rhs)
                 if m2:
                     # ABS_EXPR: for a signed integer, |minimum| overflows (undefined); for a double it clears the sign
